@@ -28,15 +28,24 @@ def main():
     while i < len(args):
         if args[i] == "--tests":
             tests = True
+        elif args[i] == "--resume":
+            pass
         elif args[i] == "--checks":
             i += 1
             checks_override = args[i].split(",")
         else:
             files.append(args[i])
         i += 1
+    done = set()
+    rp = os.path.join(ROOT, "mutants", "results.jsonl")
+    if os.path.exists(rp):
+        for l in open(rp):
+            done.add(json.loads(l)["mutant"])
     for f in files:
         m = json.load(open(f))
         name = os.path.splitext(os.path.basename(f))[0]
+        if "--resume" in args and name in done:
+            continue
         tmp = tempfile.mkdtemp(prefix="mut-" + name + "-")
         try:
             overlay = {"Replace": {}}
